@@ -32,6 +32,10 @@ var backends = []backend{
 	{"z3-4.8.12", func(f string, t, seed int) []string {
 		return []string{"/usr/bin/z3", fmt.Sprintf("-T:%d", t), fmt.Sprintf("smt.random_seed=%d", seed), f}
 	}},
+	{"z3-5.1.0-ematch", func(f string, t, seed int) []string {
+		// trigger-based instantiation only (the Boogie/Dafny configuration): never answers sat, fast on large contexts
+		return []string{"z3-new", fmt.Sprintf("-T:%d", t), "smt.mbqi=false", "smt.auto_config=false", fmt.Sprintf("smt.random_seed=%d", seed), f}
+	}},
 	{"cvc5-1.0.3", func(f string, t, seed int) []string {
 		return []string{"cvc5", "--strings-exp", fmt.Sprintf("--tlimit=%d", t*1000), fmt.Sprintf("--seed=%d", seed), f}
 	}},
@@ -40,7 +44,7 @@ var backends = []backend{
 func firstWord(out string) string {
 	for _, ln := range strings.Split(out, "\n") {
 		ln = strings.TrimSpace(ln)
-		if ln == "" {
+		if ln == "" || strings.HasPrefix(ln, "WARNING") {
 			continue
 		}
 		switch ln {
